@@ -41,18 +41,18 @@ type LoopSpec struct {
 }
 
 type FuncContract struct {
-	Pkg      string // import path ("" for stdlib spec files: taken from name)
-	Key      string // pkgpath.Recv.Name or pkgpath.Name
-	Params   []string
-	Results  []string
-	Requires []Clause
-	Ensures  []Clause
-	Bounded  []Clause // ensures-bounded: checked only by the bounded back end, assumed at call sites
-	Loops    map[int]*LoopSpec
-	Trusted  bool // assumed contract (no body verified)
-	Notes    []string
-	File     string
-	Terminates bool // every loop must carry a decreases clause
+	Pkg        string // import path ("" for stdlib spec files: taken from name)
+	Key        string // pkgpath.Recv.Name or pkgpath.Name
+	Params     []string
+	Results    []string
+	Requires   []Clause
+	Ensures    []Clause
+	Bounded    []Clause // ensures-bounded: checked only by the bounded back end, assumed at call sites
+	Loops      map[int]*LoopSpec
+	Trusted    bool // assumed contract (no body verified)
+	Notes      []string
+	File       string
+	Terminates bool  // every loop must carry a decreases clause
 	Decreases  CExpr // measure for (self-)recursive calls
 	DecSrc     string
 	Locals     []string // named local variables (incl. parameters) in declaration order when the contract was written
@@ -65,13 +65,13 @@ type LemmaStep struct {
 }
 
 type Lemma struct {
-	Name     string
-	Params   []CVar
-	Requires []Clause
-	Ensures  []Clause
-	Steps    []LemmaStep
-	File     string
-	Pkg      string
+	Name       string
+	Params     []CVar
+	Requires   []Clause
+	Ensures    []Clause
+	Steps      []LemmaStep
+	File       string
+	Pkg        string
 	ReplayPkg  string // package directory (below the module root) in which ReplayExpr is evaluated
 	ReplayExpr string // Go boolean expression over the lemma's variables that must hold on the real code
 }
